@@ -35,6 +35,7 @@ MODULES = {
     'C12': 'harness.c12',
     'C13': 'harness.c13',
     'C15': 'harness.c15',
+    'C16': 'harness.c16',
     'C19': 'harness.c19',
 }
 
